@@ -108,7 +108,11 @@ func (i *Interceptors) NewSegment(val string) (*Segment, error) {
 	if _, err := regexp.Compile(seg.rule); err != nil { // 规则本身必须是完整的表达式，否则诸如 a)|(b 会逃出分组。
 		return nil, err
 	}
-	expr, err := regexp.Compile("(?" + name + seg.rule + ")" + regexp.QuoteMeta(seg.Suffix))
+	exprEnd := ""
+	if seg.Suffix == "" { // 路由项以该参数结尾，需要匹配剩余的全部内容，比如 a|ab 不能只匹配 ab 中的 a。
+		exprEnd = "$"
+	}
+	expr, err := regexp.Compile("(?" + name + seg.rule + ")" + regexp.QuoteMeta(seg.Suffix) + exprEnd)
 	if err != nil {
 		return nil, err
 	}
